@@ -19,7 +19,7 @@ def run(ctx):
     res.rule = ('seeded histories of the two-endpoint world (acquire, soft/hard expire, ticks incl. DPD and lifetime expiry, '
                 'deliver/duplicate/drop/reorder, lossless drain) over 4 configuration variants, every 3rd history with kernel '
                 'refusals at two netlink requests; distinct = distinct schedule; the oracle runs after every operation')
-    S.campaign(ctx, res, ORACLES, ctx.scale(24, 400), ctx.scale(40, 80), fault_hist=3)
+    S.campaign(ctx, res, ORACLES, ctx.scale(120, 1500), ctx.scale(40, 80), fault_hist=3)
     return res
 
 
